@@ -43,4 +43,17 @@ def hGrpRun (j : Json) : R Json := do
     ("find", ofList (queries.map fun (d, t, same, sid) => ofStrList ((findResults par d t same sid).map String.ofList))),
     ("sources", ofList (sources.map fun s => outJson (getSource par s.toList)))]
 
+/-- `grp.file`: a history of requests addressed in turn to several parent groups of one file -/
+def hGrpFile (j : Json) : R Json := do
+  let parents ← (← arr j "parents").mapM fun p => do (← p.getArr?).toList.mapM parseEntry
+  let ops ← (← arr j "ops").mapM fun o => do return ((← nat o "parent"), (← parseOp o))
+  let (f, outs) := runFile parents ops
+  let queries ← (← arr j "queries").mapM fun q => do
+    return ((← str q "dset").toList, (← str q "tool").toList, (← str q "sid").toList)
+  return Json.mkObj [
+    ("outs", ofList (outs.map fun (p, o) => Json.mkObj [("parent", p), ("out", outJson o)])),
+    ("listing", ofList (f.map fun par => ofStrList ((names par).map String.ofList))),
+    ("find", ofList (f.map fun par => ofList (queries.map fun (d, t, sid) =>
+      ofStrList ((findResults par d t true sid).map String.ofList))))]
+
 end Usid.Driver
